@@ -1066,6 +1066,11 @@ func (app *BaseApp) runTx(mode runTxMode, txBytes []byte, tx sdk.Tx) (result sdk
 	// Create a new context based off of the existing context with a cache wrapped
 	// multi-store in case message processing fails.
 	runMsgCtx, newMS := app.txContext(ctx, txBytes) // todo edit here!!!
+	if mode == runTxModeSimulate {
+		// a simulation must not touch the consensus state: the message runs on a cache-wrapped
+		// store whose writes are never flushed
+		runMsgCtx = runMsgCtx.WithMultiStore(newMS.CacheMultiStore())
+	}
 	result = app.runMsg(runMsgCtx, msgs, mode, signer)
 	result.GasWanted = gasWanted
 
